@@ -156,7 +156,7 @@ type chainPlan struct {
 
 const flagsNoRS = callflag.AllowNotify
 
-// parseChain turns "cA.nB.dyn" into frames. Link kinds: cX call, nX GAS.transfer hop, dyn LoadScript,
+// parseChain turns "cA.nB.dyn" into frames. Link kinds: cX call, nX GAS.transfer hop, dyn / dye LoadScript,
 // qX call without ReadStates (leaf).
 func (w *world) parseChain(id string) (*chainPlan, error) {
 	cp := &chainPlan{id: id}
@@ -169,8 +169,9 @@ func (w *world) parseChain(id string) (*chainPlan, error) {
 	full := true
 	for i, l := range cp.links {
 		switch {
-		case l == "dyn":
-			cp.frames = append(cp.frames, AFrame{Name: "D", Groups: w.readGroups("D"), RS: true, Kind: kDyn})
+		case l == "dyn" || l == "dye":
+			n := map[string]string{"dyn": "D", "dye": "E"}[l] // dye: a dynamic copy of the entry script itself
+			cp.frames = append(cp.frames, AFrame{Name: n, Groups: w.readGroups(n), RS: true, Kind: kDyn})
 			full = false
 		case len(l) == 2 && (l[0] == 'c' || l[0] == 'q' || l[0] == 'n'):
 			n := l[1:]
@@ -220,6 +221,8 @@ func (w *world) buildPlan(cp *chainPlan, checks [][]check) stackitem.Item {
 			switch {
 			case l == "dyn":
 				kind, target, flags = 3, stackitem.NewByteArray(w.scripts["D"]), int64(callflag.ReadOnly)
+			case l == "dye":
+				kind, target, flags = 3, stackitem.NewByteArray(w.scripts["E"]), int64(callflag.ReadOnly)
 			case l[0] == 'c':
 				kind, target = 1, stackitem.NewByteArray(w.hashes[l[1:]].BytesBE())
 			case l[0] == 'q':
